@@ -584,4 +584,24 @@ def finish (s : State) (pid : Nat) : State × Out :=
       | [] => (s.setProc pid { p with result := some .err }, .fail)
       | v :: rest => (s.setProc pid { p with stack := rest, result := some (.ok v) }, .ok)
 
+/-- the processes of this executor whose `awaiting` map has the key `pid` -/
+def awaitersOf (s : State) (pid : Nat) : List Nat :=
+  (s.procs.filter (fun e => (aget e.2.awaiting pid).isSome)).map (·.1)
+
+def notifyAll (pid : Nat) (v : Val) : State → List Nat → State
+  | s, [] => s
+  | s, a :: rest => notifyAll pid v (notifyResult s a pid v []).1 rest
+
+/-- completion block, second part: `notify_result(awaiter, current_pid, result_value.clone(), vec![])`
+for every awaiter on the same executor (errors of the call are ignored: with an empty heap list the
+injection fails for a result that holds heap binaries, which then travels through the environment
+instead). A failure is recorded in `awaiting_failed` (no values; kept by the driver). -/
+def notifyAwaiters (s : State) (pid : Nat) : State :=
+  match s.getProc pid with
+  | some p =>
+    match p.result with
+    | some (.ok v) => notifyAll pid v s (awaitersOf s pid)
+    | _ => s
+  | none => s
+
 end QM.Heap
